@@ -180,17 +180,35 @@ Section Sound.
   Proof.
     intros vals l vo H. unfold next_vals, vals_after.
     destruct (c_mgr cfg); [destruct (isnil l); [exact H|]|];
-      (destruct vo as [|lv]; [exact H|]); destruct (node_answer lv l); [exact H | discriminate | exact H | discriminate].
+      (destruct (node_reply vo l) as [[|g got]|]; [exact H | discriminate | exact H]).
+  Qed.
+
+  (* a refresh during which the node failed a request naming a known account's key keeps the
+     whole validator store the answers are judged against *)
+  Lemma next_vals_fail_on : forall vals l pk lv, In pk l -> next_vals vals l (VFailOn pk lv) = vals.
+  Proof.
+    intros vals l pk lv H. unfold next_vals, vals_after. cbn [node_reply].
+    apply mem_N_In in H. rewrite H. destruct (c_mgr cfg); [destruct (isnil l)|]; reflexivity.
   Qed.
 End Sound.
+
+(* the node failed a request the constructor may have made: every request, or every request naming
+   a key of an account that was offered and is covered by a specifier *)
+Definition node_may_fail (parse : string -> option (list re)) (cfg : config) (offered : list N) (vo : vout) : Prop :=
+  match vo with
+  | VErr => True
+  | VOk _ => False
+  | VFailOn pk _ => allowed parse cfg offered pk
+  end.
 
 (* P_b on a case: either the wallet manager's constructor failed on a failing first validator
    refresh (and nothing else was observed), or the observed history satisfies the property step
    by step from the empty service. *)
 Theorem P_b_sound : forall c : case,
   P_b c = true ->
-  (exists offered ops', c_mgr (c_cfg c) = Wallet /\ c_ops c = Refresh offered VErr :: ops' /\
-                        exists rest, c_outs c = OCtorErr :: rest)
+  (exists offered vo ops', c_mgr (c_cfg c) = Wallet /\ c_ops c = Refresh offered vo :: ops' /\
+                           node_may_fail (lookup_parse (c_parse c)) (c_cfg c) offered vo /\
+                           exists rest, c_outs c = OCtorErr :: rest)
   \/ holds (lookup_parse (c_parse c)) (c_cfg c) [] [] (c_ops c) (c_outs c).
 Proof.
   intros c H. unfold P_b, spec_run in H.
@@ -198,8 +216,11 @@ Proof.
   - right. apply spec_ok_sound. exact H.
   - destruct x; try (right; apply spec_ok_sound; exact H).
     left. destruct (c_mgr (c_cfg c)); [discriminate|].
-    destruct (c_ops c) as [|[offered [|l]|] ops']; try discriminate.
-    exists offered, ops'. repeat split. exists rest. reflexivity.
+    destruct (c_ops c) as [|[offered vo|] ops']; try discriminate.
+    apply andb_true_iff in H as [H _]. apply andb_true_iff in H as [H _].
+    exists offered, vo, ops'. split; [reflexivity|]. split; [reflexivity|]. split; [|exists rest; reflexivity].
+    destruct vo as [|l|pk l]; cbn; [exact I | discriminate |].
+    apply hi_set_sound. apply mem_N_In. exact H.
 Qed.
 
 (* agree on a case: the observed outputs ARE the model's, so every theorem about [run] /
